@@ -4,7 +4,7 @@ cd /verif || exit 2
 out=seeded/REGRESSION.txt; : > $out.tmp
 for d in seeded/c*/; do
   id=$(basename $d); prop=$(python3 -c "import json;print(json.load(open('$d/meta.json'))['property'])")
-  r=$(timeout 2400 tools/trymutant.sh /verif/$d/patch.diff "$prop" 2>&1 | grep "^RESULT" | head -1)
+  r=$(timeout 2400 tools/trymutant.sh /verif/$d/patch.diff "$prop" 2>&1 | grep "^RESULT\|patch does not apply" | head -1)
   echo "$id $prop ${r:-RESULT: ?}" | tee -a $out.tmp
 done
 mv $out.tmp $out
